@@ -216,18 +216,29 @@ func (e StdEng) Dot(x, y Tensor, opts ...FuncOpt) (retVal Tensor, err error) {
 			}
 			return New(FromScalar(ret)), nil
 		case b.IsMatrix():
-			b.T()
-			defer b.UT()
+			// bᵀ·a is computed on a transposed alias (or copy) of b: b itself may be shared with other
+			// goroutines, or already lazily transposed, and must be left exactly as it is
+			var bt DenseTensor
+			if bd, ok := b.(*Dense); ok && !bd.IsMaterializable() {
+				bt = bd.ShallowClone()
+			} else if bv, ok := b.(View); ok {
+				bt = bv.Materialize().(DenseTensor)
+			} else {
+				bt = b.Clone().(DenseTensor)
+			}
+			if err = bt.T(); err != nil {
+				return nil, errors.Wrapf(err, opFail, "Dot")
+			}
 			switch {
 			case reuse != nil && incr != nil:
-				return b.MatVecMul(a, WithReuse(reuse), WithIncr(incr))
+				return bt.MatVecMul(a, WithReuse(reuse), WithIncr(incr))
 			case reuse != nil:
-				return b.MatVecMul(a, WithReuse(reuse))
+				return bt.MatVecMul(a, WithReuse(reuse))
 			case incr != nil:
-				return b.MatVecMul(a, WithIncr(incr))
+				return bt.MatVecMul(a, WithIncr(incr))
 			default:
 			}
-			return b.MatVecMul(a)
+			return bt.MatVecMul(a)
 		default:
 
 		}
